@@ -99,6 +99,8 @@ def _replay(beh):
             calls.append(("op.inv_quad(R, reduce_inv_quad=False)", lambda: op.inv_quad(B["mat"], reduce_inv_quad=False), iq["mat"], tol_q, batch + [2], False))
             if not batch:
                 calls.append(("op.inv_quad(vector)", lambda: op.inv_quad(B["vec"]), iq["vec"].sum(-1), tol_q, batch, False))
+                calls.append(("op.inv_quad_logdet(vector, logdet=True)[0]", lambda: op.inv_quad_logdet(B["vec"], logdet=True)[0], iq["vec"].sum(-1), tol_q, batch, False))
+                calls.append(("op.inv_quad_logdet(vector, logdet=True)[1]", lambda: op.inv_quad_logdet(B["vec"], logdet=True)[1], logdet, tol_l, batch, True))
             calls.append(("op.inv_quad_logdet(R, logdet=True)[0]", lambda: op.inv_quad_logdet(B["mat"], logdet=True)[0], iq["mat"].sum(-1), tol_q, batch, False))
             calls.append(("op.inv_quad_logdet(R, logdet=True)[1]", lambda: op.inv_quad_logdet(B["mat"], logdet=True)[1], logdet, tol_l, batch, True))
             calls.append(("op.inv_quad_logdet(R, logdet=True, reduce_inv_quad=False)[0]",
